@@ -292,20 +292,23 @@ func (m *multiPacketListener) Acquire() (net.PacketConn, error) {
 		m.pc = pc
 		m.readCh = make(chan readRequest)
 		m.doneCh = make(chan struct{})
+		// The reader works on this socket and these channels only; the fields are replaced
+		// when the listener is acquired again after its last handle was closed.
+		readCh, doneCh := m.readCh, m.doneCh
 		go func() {
 			buffer := make([]byte, serverUDPBufferSize)
 			for {
-				n, addr, err := m.pc.ReadFrom(buffer)
+				n, addr, err := pc.ReadFrom(buffer)
 				pkt := buffer[:n]
 				select {
-				case req := <-m.readCh:
+				case req := <-readCh:
 					n := copy(req.buffer, pkt)
 					req.respCh <- struct {
 						n    int
 						addr net.Addr
 						err  error
 					}{n, addr, err}
-				case <-m.doneCh:
+				case <-doneCh:
 					return
 				}
 			}
@@ -324,6 +327,8 @@ func (m *multiPacketListener) Acquire() (net.PacketConn, error) {
 			if m.count == 0 {
 				close(m.doneCh)
 				m.pc.Close()
+				// Forget the closed socket so that a later Acquire listens again.
+				m.pc = nil
 				if m.onCloseFunc != nil {
 					onCloseFunc := m.onCloseFunc
 					m.onCloseFunc = nil
